@@ -50,12 +50,16 @@ inductive Out
   | byte (b : UInt8)
   deriving DecidableEq, Repr, Inhabited
 
-/-- big-endian bytes → `uint32_t`, as the SPI backends return multi-byte register reads -/
-def be32 : List UInt8 → UInt32
+/-- big-endian bytes as a number: what `v = (v << 8) | b` accumulates -/
+def beNat : List UInt8 → Nat
   | [] => 0
-  | b :: bs => (b.toUInt32 <<< (UInt32.ofNat (8 * bs.length))) ||| be32 bs
+  | b :: bs => b.toNat * 256 ^ bs.length + beNat bs
 
-/-- byte `i` (0 = most significant) of an `n`-byte big-endian value held in a `uint32_t` -/
-def byteOf (v : UInt32) (n i : Nat) : UInt8 := (v >>> (UInt32.ofNat (8 * (n - 1 - i)))).toUInt8
+/-- big-endian bytes → `uint32_t`, as the SPI backends return multi-byte register reads -/
+def be32 (bs : List UInt8) : UInt32 := UInt32.ofNat (beNat bs)
+
+/-- byte `i` (0 = most significant) of an `n`-byte big-endian value held in a `uint32_t`:
+    `(uint8_t)(v >> (8 * (n - 1 - i)))` -/
+def byteOf (v : UInt32) (n i : Nat) : UInt8 := UInt8.ofNat (v.toNat / 256 ^ (n - 1 - i))
 
 end Sx
